@@ -20,7 +20,9 @@ def main():
     ctx = common.Ctx(a.prop, a.tier if a.tier in ("quick", "thorough") else "quick")
     try:
         mod = importlib.import_module(f"props.{a.prop}")
-        proofs.build_and_audit(ctx, getattr(mod, "regen", None))
+        import regen as regen_mod
+        parts = getattr(mod, "REGEN", ("constants", "registry"))
+        proofs.build_and_audit(ctx, lambda c: regen_mod.regen(c, parts))
         if a.replay:
             mod.replay(ctx, a.replay)
         else:
